@@ -39,6 +39,8 @@ package document
 //@   invariant 0 <= i && i <= colCount
 //@   invariant len(newRow.Cells) == colCount && arr(newRow.Cells) >= old(allocBound()) && off(newRow.Cells) == 0
 //@   invariant unchangedHeap()
+//@   invariant arr(newRow.Cells) < allocBound()
+//@   invariant forall k int :: 0 <= k && k < i ==> arr(newRow.Cells[k].Paragraphs) < allocBound() && arr(newRow.Cells[k].Paragraphs[0].Runs) < allocBound()
 //@   invariant forall k int :: 0 <= k && k < i ==> len(newRow.Cells[k].Paragraphs) == 1 && len(newRow.Cells[k].Paragraphs[0].Runs) == 1 && newRow.Cells[k].Paragraphs[0].Runs[0].Text.Content == ite(k < len(data), data[k], "")
 //@   invariant forall k int :: 0 <= k && k < i ==> ((newRow.Cells[k].Properties == nil) == (old(t.Rows[0].Cells[k].Properties) == nil)) && (newRow.Cells[k].Properties == nil || fresh(newRow.Cells[k].Properties))
 //@   invariant forall k1 int, k2 int :: 0 <= k1 && k1 < k2 && k2 < i && newRow.Cells[k1].Properties != nil ==> newRow.Cells[k1].Properties != newRow.Cells[k2].Properties
@@ -107,6 +109,7 @@ package document
 //@   invariant forall r int :: 0 <= r && r < #i ==> len(t.Rows[r].Cells) == old(len(t.Rows[r].Cells)) + 1
 //@   invariant forall r int :: #i <= r && r < len(t.Rows) ==> t.Rows[r].Cells == old(t.Rows[r].Cells)
 //@   invariant forall r int, c int :: #i <= r && r < len(t.Rows) && 0 <= c && c < old(len(t.Rows[r].Cells)) ==> t.Rows[r].Cells[c] == old(t.Rows[r].Cells[c])
+//@   invariant forall r int :: 0 <= r && r < #i ==> arr(t.Rows[r].Cells[position].Paragraphs) < allocBound() && arr(t.Rows[r].Cells[position].Paragraphs[0].Runs) < allocBound()
 //@   invariant forall r int :: 0 <= r && r < #i ==> len(t.Rows[r].Cells[position].Paragraphs) == 1 && len(t.Rows[r].Cells[position].Paragraphs[0].Runs) == 1 && t.Rows[r].Cells[position].Paragraphs[0].Runs[0].Text.Content == ite(r < len(data), data[r], "")
 //@   decreases len(t.Rows) - #i
 
